@@ -30,11 +30,12 @@ ForestGrid == {[kind |-> "forest", S |-> n] : n \in 1..8}
 DeMoorGrid == {[kind |-> "demoor", m |-> m, L |-> L, Q |-> Q, D |-> D, fifo |-> f] :
                  m \in 1..3, L \in 1..3, Q \in 1..2, D \in 1..3, f \in BOOLEAN}
 DeMoorGridBig == {[kind |-> "demoor", m |-> m, L |-> L, Q |-> Q, D |-> D, fifo |-> f] :
-                 m \in 1..4, L \in 1..4, Q \in 1..2, D \in 1..4, f \in BOOLEAN}
+                 m \in 1..4, L \in 1..4, Q \in 1..2, D \in {1, 4}, f \in BOOLEAN}
 HendrixGrid == {[kind |-> "hendrix", m |-> m, Qa |-> qa, Qb |-> qb] : m \in 1..2, qa \in 1..2, qb \in 1..2}
 HendrixGridBig == {[kind |-> "hendrix", m |-> m, Qa |-> qa, Qb |-> qb] : m \in 1..3, qa \in 1..2, qb \in 1..2}
 MirjaliliGrid == {[kind |-> "mirjalili", m |-> m, Q |-> Q, D |-> D] : m \in 1..3, Q \in 1..2, D \in 1..3}
-MirjaliliGridBig == {[kind |-> "mirjalili", m |-> m, Q |-> Q, D |-> D] : m \in 1..4, Q \in 1..3, D \in 1..4}
+MirjaliliGridBig == {[kind |-> "mirjalili", m |-> m, Q |-> Q, D |-> D] : m \in 1..3, Q \in 1..3, D \in 1..4}
+                      \cup {[kind |-> "mirjalili", m |-> 4, Q |-> 2, D |-> 2]}
 QuickGrid == ForestGrid \cup DeMoorGrid \cup HendrixGrid \cup MirjaliliGrid
 ThoroughGrid == ForestGrid \cup DeMoorGridBig \cup HendrixGridBig \cup MirjaliliGridBig
 
